@@ -318,6 +318,22 @@ Ltac leaf :=
   intros b b' Hw H; destruct b; cbn [push] in H; try discriminate;
   first [leaf_bool Hw H | leaf_prim Hw H | leaf_utf8 Hw H].
 
+Lemma push_list_wf_gen pushf k val offs m e l b' : Forall (PushOk pushf) l ->
+  WfB (BdList k val offs m e) ->
+  (do val' <- set_validity val (length offs - 1) true ;;
+   do oe <- list_loop pushf (list_wide k) l (duplicate_last offs) e ;;
+   Ok (BdList k val' (fst oe) m (snd oe))) = Ok b' ->
+  WfB b' /\ rows b' = S (rows (BdList k val offs m e)).
+Proof.
+  intros Hall (Hv & Ho & He) H.
+  apply bind_ok in H as (val' & Hs & H). apply bind_ok in H as ([offs' e'] & Hloop & H). injection H as <-.
+  destruct (duplicate_last_ok offs _ Ho) as [Ho1 Hl1].
+  destruct (list_loop_wf _ _ _ Hall _ _ _ _ Ho1 He Hloop) as (Ho' & He' & Hl').
+  assert (length offs <> 0) by (destruct Ho as [Hne _]; destruct offs; [congruence|cbn; lia]).
+  cbn [WfB rows fst snd]. rewrite Hl', Hl1. split; [|lia]. split; [|split; assumption].
+  replace (S (length offs) - 1) with (S (length offs - 1)) by lia. eapply ValOk_set; eassumption.
+Qed.
+
 Lemma push_list_wf k val offs m e l b' : Forall (PushOk push) l ->
   WfB (BdList k val offs m e) ->
   (do val' <- set_validity val (length offs - 1) true ;;
@@ -349,10 +365,22 @@ Proof.
   eapply finish_record_ok; [|exact Hf]. eapply Hloop; [|exact Hl]. apply StInv_start, Hc.
 Qed.
 
+Lemma push_scalar_ok x : PushOk push_scalar x.
+Proof.
+  intros b b' Hw H. destruct b; cbn [push_scalar] in H; try discriminate.
+  - destruct x; try discriminate. leaf_bool Hw H.
+  - leaf_prim Hw H.
+  - leaf_utf8 Hw H.
+Qed.
+
 Theorem push_wf : forall v, PushOk push v.
 Proof.
   induction v using Value_ind'; unfold PushOk in *.
-  - leaf. - leaf. - leaf. - leaf. - leaf. - leaf. - leaf.
+  - leaf. - leaf. - leaf. - leaf. - leaf. - leaf.
+  - intros b b' Hw H0. destruct b; cbn [push] in H0; try discriminate;
+      first [leaf_bool Hw H0 | leaf_prim Hw H0 | leaf_utf8 Hw H0 | idtac].
+    eapply (push_list_wf_gen push_scalar); [|exact Hw|exact H0].
+    apply Forall_forall. intros x _. apply push_scalar_ok.
   - intros b b' Hw H. cbn [push] in H. eapply push_none_wf; eassumption.
   - intros b b' Hw H. cbn [push] in H. eapply IHv; eassumption.
   - intros b b' Hw H. cbn [push] in H. eapply push_none_wf; eassumption.
